@@ -31,6 +31,7 @@ type unit struct {
 	started  uint64
 	returned uint64
 	ctxDone  uint64
+	ctxErr   error // result 3: what ctx.Err() was when the runner returned it (Canceled, or DeadlineExceeded under a caller's deadline)
 	waitFor  func() bool // closer: having done its own work, it waits for a worker of the application to finish
 }
 
@@ -85,9 +86,25 @@ func (u *unit) runner(s *simrt.Sim) concurrency.Runner {
 		case 2:
 			return context.Canceled
 		case 3:
-			return ctx.Err()
+			u.ctxErr = ctx.Err()
+			return u.ctxErr
 		}
 		return nil
+	}
+}
+
+// parentCtx draws the context handed to Run: Background, one the harness cancels, or one with a deadline of
+// the caller's own (its expiry ends the run like a cancel; a runner passing ctx.Err() on then returns
+// context.DeadlineExceeded, which is not Canceled and is reported - and nothing else is).
+func parentCtx(s *simrt.Sim) (context.Context, context.CancelFunc, bool) {
+	switch s.Choose(4, "parentctx") {
+	case 1:
+		ctx, cancel := context.WithTimeout(context.Background(), []time.Duration{0, 500 * time.Microsecond, 3 * time.Millisecond, 20 * time.Millisecond, 100 * time.Millisecond}[s.Choose(5, "deadline")])
+		s.Fault("parent.deadline")
+		return ctx, cancel, true
+	default:
+		ctx, cancel := context.WithCancel(context.Background())
+		return ctx, cancel, false
 	}
 }
 
@@ -156,7 +173,10 @@ func expected(us []*unit) []string {
 		if u.starts > 0 && u.closer && u.result == 6 {
 			out = append(out, fmt.Sprintf("closer %d: %s", u.id, context.Canceled.Error()))
 		}
-		// result 3 (ctx.Err()) is context.Canceled: dropped for runners
+		// result 3 (ctx.Err()): context.Canceled is dropped for runners; the caller's own deadline is an error like any other
+		if u.starts > 0 && !u.closer && u.result == 3 && u.ctxErr != nil && !errors.Is(u.ctxErr, context.Canceled) {
+			out = append(out, u.ctxErr.Error())
+		}
 	}
 	sort.Strings(out)
 	return out
@@ -174,7 +194,7 @@ func runnerManager(s *simrt.Sim) {
 	m := concurrency.NewRunnerManager(rs...)
 	var runInv, runRet uint64
 	var runErr error
-	parent, cancelParent := context.WithCancel(context.Background())
+	parent, cancelParent, _ := parentCtx(s)
 	defer cancelParent()
 	var names []string
 	// Adds before / racing / after Run
@@ -375,13 +395,23 @@ func closerManager(s *simrt.Sim) {
 			s.Fail("close-before-run-error", fmt.Sprintf("Close before Run returned %v", closes[0].err))
 		}
 	}
+	parent, cancelParent, _ := parentCtx(s)
+	defer cancelParent()
 	s.Go("run", func() {
 		runInv = s.Stamp()
-		runErr = m.Run(context.Background())
+		runErr = m.Run(parent)
 		s.Yield("run.ret")
 		runRet = s.Stamp()
 	})
 	names = append(names, "run")
+	if s.Choose(6, "cancelParentOfCloserManager") == 0 {
+		names = append(names, "pcancel")
+		s.Go("pcancel", func() {
+			s.Sleep(delays[s.Choose(len(delays), "pcAt")])
+			cancelParent()
+			s.Fault("parent.cancel")
+		})
+	}
 	// an Add that races Run: either it is refused, or the runner is started and waited for like every other
 	// (and Close still ends the run)
 	var racer *unit
